@@ -992,9 +992,10 @@ class ParserField:
         type = self.output_type
         if not type:
             return value
-        trans = context.transformer
         try:
-            return trans(value, type)  # noqa
+            # (a context of its own, like an input value: errors of the conversion are reported once, as this item)
+            with context.enter(self.name) as new_context:
+                return new_context.transformer(value, type)  # noqa
         except Exception as e:
             error = exc.ParseError(
                 item=self.name,
